@@ -133,7 +133,7 @@ DEREF_RE = re.compile(r'^\(\*(.+)\)$')
 PASS_THROUGH = (
     'Clone>::clone', 'Option::as_ref', 'Result::as_ref', 'Option::as_mut', 'Option::copied',
     'Option::cloned', 'ToOwned>::to_owned', 'Borrow>::borrow', 'AsRef>::as_ref', 'Deref>::deref',
-    'Into>::into', 'From>::from', 'Option::as_deref',
+    'Into>::into', 'From>::from', 'Option::as_deref', 'Result::map_err',
 )
 
 
